@@ -41,6 +41,10 @@ where
 {
     fn work(&mut self) -> Result<BlockRet> {
         let mut o = self.dst.write_buf()?;
+        if o.is_empty() {
+            // A zero length read would look like the connection closing.
+            return Ok(BlockRet::WaitForStream(&self.dst, 1));
+        }
         let size = T::size();
         let mut buffer = vec![0; o.len()];
         // TODO: this read blocks.
@@ -53,16 +57,22 @@ where
 
         let mut steal = 0;
         if !self.buf.is_empty() {
-            steal = size - self.buf.len();
+            // Complete the partial sample from last time, with as much as
+            // we actually got this time.
+            steal = std::cmp::min(size - self.buf.len(), n);
             self.buf.extend(&buffer[0..steal]);
-            v.push(T::parse(&self.buf)?);
-            self.buf.clear();
+            if self.buf.len() == size {
+                v.push(T::parse(&self.buf)?);
+                self.buf.clear();
+            }
         }
         let remaining = (n - steal) % size;
         for pos in (steal..(n - remaining)).step_by(size) {
             v.push(T::parse(&buffer[pos..pos + size])?);
         }
-        self.buf.extend(&buffer[n - remaining..n]);
+        if steal < n {
+            self.buf.extend(&buffer[n - remaining..n]);
+        }
         let n = v.len();
         o.fill_from_iter(v);
         o.produce(n, &[]);
